@@ -42,15 +42,15 @@ type Rec struct {
 }
 
 type Cfg struct {
-	Sim        simrt.Config  `json:"sim"`
-	Decoder    string        `json:"decoder"` // json | raw
-	MaxSize    int           `json:"max_event_size"`
-	CutOff     bool          `json:"cut_off"`
-	CutField   string        `json:"cut_off_field"`
-	Threshold  int           `json:"antispam_threshold"`
-	Exception  bool          `json:"antispam_exception"`
-	MaintIvl   time.Duration `json:"antispam_interval"`
-	Readers    [][]Rec       `json:"readers"`
+	Sim       simrt.Config  `json:"sim"`
+	Decoder   string        `json:"decoder"` // json | raw
+	MaxSize   int           `json:"max_event_size"`
+	CutOff    bool          `json:"cut_off"`
+	CutField  string        `json:"cut_off_field"`
+	Threshold int           `json:"antispam_threshold"`
+	Exception bool          `json:"antispam_exception"`
+	MaintIvl  time.Duration `json:"antispam_interval"`
+	Readers   [][]Rec       `json:"readers"`
 }
 
 func (c *Cfg) SimCfg() *simrt.Config { return &c.Sim }
@@ -192,7 +192,7 @@ type sinkOut struct {
 }
 
 func (s *sinkOut) Start(_ pipeline.AnyConfig, p *pipeline.OutputPluginParams) { s.ctl = p.Controller }
-func (s *sinkOut) Stop()                                                       {}
+func (s *sinkOut) Stop()                                                      {}
 func (s *sinkOut) Out(e *pipeline.Event) {
 	js := e.Root.EncodeToString()
 	s.raw = append(s.raw, js)
@@ -405,17 +405,24 @@ type AOp struct {
 }
 
 type ACfg struct {
-	Sim       simrt.Config `json:"sim"`
-	Threshold int          `json:"threshold"`
-	Unban     int          `json:"unban_iterations"`
-	Exception bool         `json:"exception"`
-	Feeders   [][]AOp      `json:"feeders"` // concurrent event feeders
-	Rounds    int          `json:"rounds"`  // maintenance rounds driven by the harness
-	RoundGap  time.Duration `json:"round_gap"`
-	SilenceCheck bool      `json:"silence_check"`
-	RuleThreshold int      `json:"rule_threshold,omitempty"` // >0: an antispam rule with its own threshold for the sources listed in RuledSources
-	RuledSources []int     `json:"ruled_sources,omitempty"`
-	NameException bool     `json:"name_exception,omitempty"` // a check_source_name exception is listed in front of the content exception
+	Sim           simrt.Config  `json:"sim"`
+	Threshold     int           `json:"threshold"`
+	Unban         int           `json:"unban_iterations"`
+	Exception     bool          `json:"exception"`
+	Feeders       [][]AOp       `json:"feeders"` // concurrent event feeders
+	Rounds        int           `json:"rounds"`  // maintenance rounds driven by the harness
+	RoundGap      time.Duration `json:"round_gap"`
+	SilenceCheck  bool          `json:"silence_check"`
+	RuleThreshold int           `json:"rule_threshold,omitempty"` // >0: an antispam rule with its own threshold for the sources listed in RuledSources
+	RuledSources  []int         `json:"ruled_sources,omitempty"`
+	NameException bool          `json:"name_exception,omitempty"` // a check_source_name exception is listed in front of the content exception
+	// InvertedName: that source-name exception is inverted ("every source whose name does not start with trusted- is exempt"),
+	// so every source of the run is exempt, whatever the length of its name
+	InvertedName bool `json:"inverted_name_exception,omitempty"`
+	// Rule2: a second rule behind the first one that matches every record and has a lower threshold (0 = blocked);
+	// the first matching rule decides, so it applies only to the sources the first rule does not match
+	Rule2          bool `json:"rule2,omitempty"`
+	Rule2Threshold int  `json:"rule2_threshold,omitempty"`
 }
 
 func (c *ACfg) SimCfg() *simrt.Config { return &c.Sim }
@@ -439,6 +446,7 @@ func (h *HA) Gen(rng *rand.Rand, tier, prop string) core.Cfg {
 	nsrc := core.Between(rng, 1, 3)
 	if c.Exception {
 		c.NameException = core.Chance(rng, 0.5)
+		c.InvertedName = c.NameException && core.Chance(rng, 0.4)
 	} else if c.Threshold > 1 && core.Chance(rng, 0.4) {
 		// rules replace the exceptions; a rule's threshold is lower than the global one
 		c.RuleThreshold = core.Between(rng, 1, c.Threshold-1)
@@ -446,6 +454,10 @@ func (h *HA) Gen(rng *rand.Rand, tier, prop string) core.Cfg {
 			if core.Chance(rng, 0.6) {
 				c.RuledSources = append(c.RuledSources, sidx)
 			}
+		}
+		if core.Chance(rng, 0.5) {
+			c.Rule2 = true
+			c.Rule2Threshold = rng.IntN(c.RuleThreshold) // 0 (blocked) .. RuleThreshold-1
 		}
 	}
 	for f := 0; f < nf; f++ {
@@ -505,7 +517,7 @@ func (h *HA) Run(cc core.Cfg, sim *simrt.Sim) *core.Outcome {
 			exc = antispam.Exceptions{{RuleSet: matchrule.RuleSet{Name: "vip", Cond: matchrule.CondAnd, Rules: []matchrule.Rule{{Values: []string{"EXEMPT"}, Mode: matchrule.ModeContains}}}}}
 			if cfg.NameException {
 				// matches no source of this run; it only has to be looked at first
-				exc = append(antispam.Exceptions{{RuleSet: matchrule.RuleSet{Name: "byname", Cond: matchrule.CondAnd, Rules: []matchrule.Rule{{Values: []string{"trusted-"}, Mode: matchrule.ModePrefix}}}, CheckSourceName: true}}, exc...)
+				exc = append(antispam.Exceptions{{RuleSet: matchrule.RuleSet{Name: "byname", Cond: matchrule.CondAnd, Rules: []matchrule.Rule{{Values: []string{"trusted-"}, Mode: matchrule.ModePrefix, Invert: cfg.InvertedName}}}, CheckSourceName: true}}, exc...)
 			}
 			exc.Prepare()
 		}
@@ -517,6 +529,13 @@ func (h *HA) Run(cc core.Cfg, sim *simrt.Sim) *core.Outcome {
 				panic(err)
 			}
 			rules = antispam.Rules{{Name: "r1", Threshold: cfg.RuleThreshold, DoIfChecker: chk}}
+			if cfg.Rule2 {
+				all, err := doif.NewFromMap(map[string]any{"op": "contains", "field": "event", "values": []any{"\"m\""}})
+				if err != nil {
+					panic(err)
+				}
+				rules = append(rules, antispam.Rule{Name: "r2", Threshold: cfg.Rule2Threshold, DoIfChecker: all})
+			}
 			for _, sidx := range cfg.RuledSources {
 				ruled[sidx] = true
 			}
@@ -525,7 +544,17 @@ func (h *HA) Run(cc core.Cfg, sim *simrt.Sim) *core.Outcome {
 			if ruled[src] {
 				return cfg.RuleThreshold
 			}
+			if cfg.Rule2 {
+				return cfg.Rule2Threshold // matches every record the first rule did not take
+			}
 			return cfg.Threshold
+		}
+		// source names: short ones and one longer than the exception's value
+		nameOf := func(src int) string {
+			if src == 2 {
+				return "source-number-" + strconv.Itoa(src)
+			}
+			return "src" + strconv.Itoa(src)
 		}
 		a := antispam.NewAntispammer(&antispam.Options{MaintenanceInterval: time.Hour, Threshold: cfg.Threshold, UnbanIterations: cfg.Unban, Exceptions: exc, Rules: rules,
 			Logger: h1pipe.QuietLogger(), MetricsController: metric.NewCtl(fmt.Sprintf("h8a_%d", seq), prometheus.NewRegistry(), 0, 0)})
@@ -568,7 +597,7 @@ func (h *HA) Run(cc core.Cfg, sim *simrt.Sim) *core.Outcome {
 					thr := thresholdOf(op.Source)
 					cl := &call{start: simrt.Steps()}
 					s.calls = append(s.calls, cl)
-					spam := a.IsSpam(strconv.Itoa(op.Source), "src"+strconv.Itoa(op.Source), op.New, ev, time.Time{}, nil)
+					spam := a.IsSpam(strconv.Itoa(op.Source), nameOf(op.Source), op.New, ev, time.Time{}, nil)
 					cl.ret = simrt.Steps()
 					if !spam {
 						// an exempt record is accepted during a ban too and a new-source flag
@@ -581,9 +610,9 @@ func (h *HA) Run(cc core.Cfg, sim *simrt.Sim) *core.Outcome {
 					switch {
 					case cfg.Threshold < 0:
 						o.Violate("C20", "spam-with-antispam-disabled", "IsSpam returned true although the threshold is %d", cfg.Threshold)
-					case op.Exempt && cfg.Exception:
-						o.Violate("C20", "spam-despite-exception", "IsSpam returned true for an event matching an exception")
-					case op.New && cfg.Threshold > 0:
+					case (op.Exempt || cfg.InvertedName) && cfg.Exception:
+						o.Violate("C20", "spam-despite-exception", "IsSpam returned true for an event matching an exception (source name %q, inverted source-name exception: %v)", nameOf(op.Source), cfg.InvertedName)
+					case op.New && thr > 0:
 						o.Violate("C20", "spam-for-new-source", "IsSpam returned true for a new source")
 					case !s.banned && thr > 0:
 						// transition into the ban: at least `threshold` events since the start of the previous round
@@ -634,7 +663,7 @@ func (h *HA) Run(cc core.Cfg, sim *simrt.Sim) *core.Outcome {
 				if ruled[src] {
 					probe = []byte(`{"m":"x","tag":"RULED"}`)
 				}
-				if a.IsSpam(strconv.Itoa(src), "src"+strconv.Itoa(src), false, probe, time.Time{}, nil) && thresholdOf(src) > 1 {
+				if a.IsSpam(strconv.Itoa(src), nameOf(src), false, probe, time.Time{}, nil) && thresholdOf(src) > 1 {
 					o.Violate("C20", "still-banned-after-silence", "source %d is still banned after %d silent maintenance rounds (unban iterations %d)", src, cfg.Unban+1, cfg.Unban)
 				}
 			}
